@@ -14,7 +14,7 @@ import math
 import numpy as np
 
 from fsmc import bases, tissue as T, fsutil, solvecase as SC
-from fsmc.explorer import ProductSystem
+from fsmc.explorer import ProductSystem, ListSystem
 
 PID = "C12"
 RULE = ("states = displacement fields on a lattice of 9 values per junction (4 junctions), and series configurations within the deviation bound; "
@@ -23,7 +23,7 @@ BOUND = {"quick": "all 9^4 lattice fields (4 mutually neighbouring junctions x r
          "thorough": "compact base under 9 numbering combinations, 20-cell base under 4; bond-aligned fields with 5 magnitudes (31 x 11^3) on one hexagonal lattice and 2 magnitudes on two more (one curved); series product with deviation bound 3"}
 ASSUMPTIONS = ["bounds of the statement are evaluated on the generated geometry: displacement < 0.5 x smallest junction spacing (both frames), < 8% of the extent "
                "of the interface end points of both frames, bounding-box shape change < 10% of that extent; instances outside give no verdict"]
-REQUIRED_TAGS = {"all": ["inside_bounds", "outside_bounds", "renumbered", "cm", "guess_true", "guess_wrong", "len>2", "roundtrip_checked", "binding:spacing", "binding:extent", "large_length_unit", "small_length_unit"]}
+REQUIRED_TAGS = {"all": ["inside_bounds", "outside_bounds", "renumbered", "cm", "guess_true", "guess_wrong", "len>2", "roundtrip_checked", "binding:spacing", "binding:extent", "large_length_unit", "small_length_unit", "guess_shared_empty"]}
 
 VMAPS = [["id"], ["rev"], ["gap", 3, 7], ["off", 10 ** 6], ["rot", 5], ["swap0"], ["stored_rev"]]
 
@@ -119,7 +119,16 @@ def run_series(at, cm, fields, vmaps, use_cm, guess_spec, viol, tags):
         return None
     guess = None
     ig = None
-    if guess_spec[0] != "none":
+    if guess_spec[0] == "shared_empty":
+        # the user passes ONE empty dict for every frame (dict.fromkeys(frames, {})): no pairing is supplied, so every frame pair
+        # must be tracked exactly as without a guess
+        ig = dict.fromkeys(range(len(fields)), {})
+        s0, infos, ex = SC.build_series(spec, cm=use_cm, initial_guess=ig)
+        if ex is not None:
+            viol.append({"what": "ForSys construction with a shared empty initial_guess raised", "detail": fsutil.exc_str(ex)})
+            return None
+        tags.append("guess_shared_empty")
+    elif guess_spec[0] != "none":
         j = real[guess_spec[1] % len(real)]
         if guess_spec[0] == "true":
             tgt = j
@@ -251,7 +260,7 @@ class Series(ProductSystem):
 
     def axes(self, base):
         return {"motion": MOTIONS, "level": LEVELS, "L": [2, 3, 4, 6], "vm0": VMAPS, "vm1": VMAPS, "vm2": VMAPS,
-                "cm": [False, True], "guess": [["none"], ["true", 0], ["true", 3], ["wrong", 0], ["wrong", 2], ["wrong", 5]],
+                "cm": [False, True], "guess": [["none"], ["true", 0], ["true", 3], ["wrong", 0], ["wrong", 2], ["wrong", 5], ["shared_empty"]],
                 "unit": [1.0, 1e3, 1e-3, 512.0, 1e-6]}       # length unit: every bound of the statement is relative
 
     def eval_config(self, base, cfg):
@@ -303,18 +312,30 @@ class Series(ProductSystem):
         return {"viol": viol, "tags": sorted(set(tags)), "cls": cls, "nontrivial": m != "rest"}
 
 
+def eval_shared_guess(d):
+    S = Series([d["tissue"]], 0)
+    cfg = {"motion": d["motion"], "level": 0.9, "L": d["L"], "vm0": d["vm"][0], "vm1": d["vm"][1], "vm2": d["vm"][2], "cm": d["cm"], "guess": ["shared_empty"], "unit": 1.0}
+    r = S.eval_config(d["tissue"], cfg)
+    r["cls"] = "shared/" + r["cls"] + "/" + fsutil.state_hash(d["vm"])[:5]
+    return r
+
+
 def build(tier, seed):
     from checks import c07
     small = c07.first_connected("v5x5", 3)
+    shared = ListSystem("shared-guess-object", [{"tissue": t, "motion": m, "L": L, "vm": vm, "cm": cmv}
+                                                for t in (["v5x4", None], ["v5x5", small]) for m in ("flow_d", "random_like") for L in (3, 4, 6)
+                                                for vm in ([["rev"], ["rot", 5], ["id"]], [["gap", 3, 7], ["stored_rev"], ["rev"]], [["id"], ["id"], ["id"]])
+                                                for cmv in (False, True)], eval_shared_guess)
     if tier == "quick":
         return [LatticeFields("v5x5", small, [0.95, 0.4], 4, [["id"], ["rev"]], [["id"], ["rev"]]),
                 LatticeFields("v5x4", None, [0.95], 4, [["id"], STORED_REV], [["id"], STORED_REV]),
                 # a tissue many junction spacings wide: several successors fall inside the widest search ring of one junction
                 LatticeFields("hex6x4", None, [1.0], 4, [["id"], STORED_REV], [["id"], STORED_REV], mob=["id"], theta=0.0, bonds=[0.85, 0.65]),
-                Series([["v5x5", small], ["v5x4", None], ["v4x4p%d" % (seed + 1), None]], 2)]
+                Series([["v5x5", small], ["v5x4", None], ["v4x4p%d" % (seed + 1), None]], 2), shared]
     return [LatticeFields("v5x5", small, [0.95, 0.4], 4, [["id"], ["rev"], ["rot", 5]], [["id"], ["rev"], ["rot", 3]]),
             LatticeFields("v5x4", None, [0.95, 0.4], 4, [["gap", 3, 7], STORED_REV], [["id"], STORED_REV]),
             LatticeFields("hex6x4", None, [1.0], 4, [["id"], STORED_REV, ["rot", 7]], [["id"], STORED_REV], mob=["id"], theta=0.0, bonds=[0.9, 0.85, 0.75, 0.65, 0.4]),
             LatticeFields("hex6x6", None, [1.0], 4, [["id"], STORED_REV], [["id"], STORED_REV], mob=["id"], theta=0.0, bonds=[0.85, 0.65]),
             LatticeFields("hex5x6", None, [1.0], 4, [["id"], STORED_REV], [["id"], STORED_REV], mob=["m", 0.02, 0.01], theta=0.0, bonds=[0.85, 0.65]),
-            Series([["v5x5", small], ["v5x4", None], ["v5x5", None], ["v4x4p%d" % (seed + 1), None]], 3)]
+            Series([["v5x5", small], ["v5x4", None], ["v5x5", None], ["v4x4p%d" % (seed + 1), None]], 3), shared]
